@@ -705,7 +705,7 @@ def escape_outcome(facts, inst_usrs, fname, args_by_name, preds):
                 v = m.ev(c['args'][0])
                 return int(preds[n][v])
             if c['k'] == 'MCall' and o is not None and o.get('k') == 'Member' and o.get('m') == 'm_writer':
-                if n in ('write', 'writeSafe', 'writeCDATAChar'):
+                if n in ('write', 'writeSafe', 'writeCDATAChar', 'writePIChars', 'writeCommentChars', 'writeNameChar'):
                     a0 = _sc(c['args'][0]) if c['args'] else None
                     if a0 is not None and a0.get('k') == 'Member' and 'EntityString' in a0.get('m', ''):
                         events.append('ENTITY')
@@ -723,6 +723,10 @@ def escape_outcome(facts, inst_usrs, fname, args_by_name, preds):
                 events.append('ERROR'); raise _Thrown()
             if n in ('getMemoryManager',):
                 return 0
+            if n == 'isUTF16HighSurrogate':
+                return int(0xD800 <= m.ev(c['args'][0]) <= 0xDBFF)
+            if n == 'isUTF16LowSurrogate':
+                return int(0xDC00 <= m.ev(c['args'][0]) <= 0xDFFF)
             tgt = c.get('usr')
             if c['k'] == 'MCall' and (o is None or o.get('k') == 'This') and tgt in inst_usrs and depth < 6:
                 return run_fn(tgt, [m.ev(x) for x in c['args']], depth + 1)
@@ -795,3 +799,114 @@ def run(res, facts, tier):
     r1c_derived(res, facts)
     from . import c04_cdata
     c04_cdata.run(res, facts, tier)
+
+
+# ----------------------------------------------------------------------------------------------- R5c: failure policy of the name / PI / comment writers
+def _functor_policy(facts, ty):
+    """'throw' / 'charref' / None for a failure-handler functor class: what its operator() does with an unrepresentable character"""
+    ty = (ty or '').replace('const ', '').strip()
+    for a in (facts.asts(ty + '::operator()', must=False) or [])[:2]:
+        ns = [c.get('n') or callee(c).split('::')[-1] for c in calls(a['body'])]
+        if any(n.startswith('throw') for n in ns) and 'writeNumericCharacterReference' not in ns:
+            return 'throw'
+        if 'writeNumericCharacterReference' in ns:
+            return 'charref'
+    return None
+
+
+def r5c_writer_policy(res, facts):
+    r = res.rule('C04-R5c', 'writers that can meet unrepresentable characters (a failure-handler functor is passed to their code-point writer): writeNameChar, writePIChars and '
+                 'writeCommentChars hand characters on only with a handler that raises an error — a character reference inside a name, a PI or a comment is not an escape — '
+                 'while content paths use the character-reference handler; comment and PI data reach the writer through those entry points', floor=4)
+    by_cls = collections.defaultdict(dict)
+    for k in facts.astidx:
+        f = facts.F.get(k)
+        if f and (f.get('clsq') or '').endswith('EncodingWriter') or (f and 'Writer' in (f.get('clsq') or '') and f.get('clsq', '').startswith('xalanc_1_12::Xalan')):
+            by_cls[f['cls']].setdefault(f['name'].split('::')[-1], []).append(k)
+    n_cls = 0
+    for cls, fns in sorted(by_cls.items()):
+        # does this writer have a handler-taking code-point writer at all?
+        policies = {}
+
+        def policy_of(usr, depth=0, seen=None):
+            """set of handler policies the function can apply to the characters it is given"""
+            seen = seen if seen is not None else set()
+            if usr in seen or depth > 3:
+                return set()
+            seen.add(usr)
+            a = facts.ast(usr)
+            out = set()
+            if a is None:
+                return out
+            for c in calls(a['body']):
+                if c.get('k') != 'MCall' or not (c.get('n') or '').startswith('write'):
+                    continue
+                o = strip_casts_(c.get('obj'))
+                if o is not None and o.get('k') != 'This':
+                    continue
+                handler = None
+                for x in c.get('args', []):
+                    sx = strip_casts_(x)
+                    if sx is not None and sx.get('k') in ('Member', 'Ref') and 'Functor' in (sx.get('m') or sx.get('n') or ''):
+                        handler = sx
+                    elif sx is not None and sx.get('k') in ('Member', 'Ref') and _functor_policy(facts, sx.get('ty')):
+                        handler = sx
+                if handler is not None:
+                    p = _functor_policy(facts, handler.get('ty'))
+                    out.add(p or ('unknown:' + (handler.get('ty') or '?')))
+                elif c.get('usr') and c['usr'] != usr and facts.F.get(c['usr'], {}).get('cls') == cls:
+                    out |= policy_of(c['usr'], depth + 1, seen)
+            return out
+        has_handlers = False
+        for nm, us in fns.items():
+            for u in us:
+                a = facts.ast(u)
+                if a is not None and any('Functor' in pp(x) for c in calls(a['body']) for x in c.get('args', [])):
+                    has_handlers = True
+        if not has_handlers:
+            continue
+        n_cls += 1
+        fam = short_cls(facts.F[fns[next(iter(fns))][0]]) if False else cls.replace('xalanc_1_12::', '').split('<')[0]
+        for nm, want in (('writeNameChar', {'throw'}), ('writePIChars', {'throw'}), ('writeCommentChars', {'throw'})):
+            for u in fns.get(nm, [])[:1]:
+                got = policy_of(u)
+                site = '%s::%s' % (fam, nm)
+                if got and got <= want:
+                    r.ok(site, 'unrepresentable character -> error')
+                elif not got:
+                    r.violation(site, 'hands its characters to no handler-taking writer: unrepresentable characters are not detected here', common.file_line(facts.ast(u)))
+                else:
+                    r.violation(site, 'characters of a %s are written with the %s policy: an unrepresentable character becomes a character reference inside the %s, which is not well-formed, '
+                                'and the transformation reports success' % ({'writeNameChar': 'name', 'writePIChars': 'processing instruction', 'writeCommentChars': 'comment'}[nm],
+                                                                           '/'.join(sorted(got)), {'writeNameChar': 'name', 'writePIChars': 'PI', 'writeCommentChars': 'comment'}[nm]),
+                                common.file_line(facts.ast(u)))
+    # the serializer's comment / PI data path ends in the writers' throwing entry points
+    seen_cls = set()
+    for k in facts.astidx:
+        f = facts.F.get(k)
+        if not (f and f.get('clsq') == 'xalanc_1_12::FormatterToXMLUnicode' and f['name'].split('::')[-1] == 'writeNormalizedChar'):
+            continue
+        fam = writer_family(f['cls'].replace('xalanc_1_12::', '').split('FormatterToXMLUnicode<')[-1])
+        if fam in seen_cls:
+            continue
+        seen_cls.add(fam)
+        a = facts.ast(k)
+        sinks = [c.get('n') for c in calls(a['body']) if c.get('k') == 'MCall' and strip_casts_(c.get('obj')) is not None and strip_casts_(c['obj']).get('m') == 'm_writer']
+        site = 'FormatterToXMLUnicode<%s>::writeNormalizedChar (comment and PI data)' % fam
+        bad = [x for x in sinks if x not in ('writePIChars', 'writeCommentChars', 'outputNewline')]
+        if sinks and not bad:
+            r.ok(site, 'characters go to %s' % sorted(set(sinks)))
+        else:
+            r.violation(site, 'comment / PI data is handed to m_writer.%s, which substitutes character references for unrepresentable characters: the comment or PI parses back to different '
+                        'content and no error is reported' % (bad[0] if bad else '?'), common.file_line(a))
+    if n_cls == 0:
+        raise AnalysisBroken('no writer class with failure-handler functors found (XalanOtherEncodingWriter expected)')
+    return r
+
+
+_run_c04_prev = run
+
+
+def run(res, facts, tier):
+    _run_c04_prev(res, facts, tier)
+    r5c_writer_policy(res, facts)
